@@ -175,6 +175,20 @@ PROPERTIES = {
                      'robots.txt concurrently may fetch it twice (no lock): not examined', 'WebProcessorSession.process / _process_robots ordering (robots before the first request): '
                      'read from the code, not under contract'],
     ),
+    'C12': dict(
+        modules=['pool'], level='proof', bounded=['c12_pool.py'],
+        claim='Class invariant of HostPool under cooperative scheduling (rely/guarantee: the invariant must hold at every `yield from` of acquire/release, after which the '
+              'shared sets are arbitrary subject to it): a connection is never idle and busy at once, idle + busy never exceeds the per-host limit; acquire returns a '
+              'connection that is checked out and not idle; release removes exactly the caller\'s connection and makes it idle iff reusable; the condition lock (ghost holder) '
+              'is free again on every exit of acquire and release, including cancellation inside Condition.acquire and Condition.wait. Four genuine defects were found and '
+              'repaired (fix: commits): lock leaked by a cancelled waiter (deductive obligation), waiter count / connection leaked by a cancellation inside '
+              'ConnectionPool.acquire, another client\'s deferred release cancelled, wake-up swallowed by a cancelled waiter (all three by the stand-in).',
+        note='assumed: asyncio.Lock/Condition semantics (acquire cancelled: not held; wait cancelled: held again), one task runs at a time, no other task releases the '
+             'connection a caller holds. Bounded stand-in c12_pool.py (labelled bounded): the real ConnectionPool + HostPool on a real event loop under seeded schedules with '
+             'remote closes and cancellations: per-key limit counted by the clients, unique holder, nothing checked out and no bookkeeping left at the end, no client stuck.',
+        not_decided=['ConnectionPool.acquire/release/clean bodies (dicts keyed by tuples, iteration with deletion): bounded only',
+                     '"a waiting client obtains a connection as soon as one is free" is a liveness clause: only the stand-in\'s deadlock detector (2 s) speaks to it'],
+    ),
     'C15': dict(
         modules=['path'], level='proof', bounded=['c15_names.py'],
         claim='Per-byte lemma on the real PercentEncoder.__missing__ for all 256 byte values and all 16 option combinations: the separator is escaped in unix and windows mode, '
